@@ -85,7 +85,43 @@ def parallel_slots(ctx, rep):
                     break
 
 
+def undefined_points(ctx, rep):
+    """objectives that are undefined (NaN) on part of the search space — sqrt / log outside their domain — with a NaN-free initial population:
+    the best-so-far is never NaN and never gets worse, and with elitism it stays in the population (implementation against the statement:
+    the exact loop model has no NaN)"""
+    import thefittest.optimizers as O
+    for kind, kw in (("GeneticAlgorithm", dict(str_len=8)), ("SelfCGA", dict(str_len=8)), ("GeneticAlgorithm", dict(str_len=8, selection="rank")))[: ctx.pick(3, 3)]:
+        for mini in (False, True):
+            seed, pop = ctx.rng.randrange(1 << 30), ctx.rng.choice([10, 12])
+
+            def f(X, mini=mini):
+                ones = np.asarray(X, dtype=np.float64).sum(axis=1)
+                with np.errstate(all="ignore"):
+                    v = np.sqrt(5.0 - ones) + 0.125 * ones          # NaN where more than 5 bits are set
+                return -v if mini else v
+            rs = np.random.RandomState(seed % (1 << 31))
+            init = (rs.uniform(size=(pop, 8)) < 0.3).astype(np.byte)
+            init[init.sum(axis=1) > 5] = 0
+            track = []
+
+            def cb(o, track=track):
+                ft = o.get_fittest()
+                inpop = any(np.array_equal(ft["genotype"], g) for g in o._population_g_i)
+                track.append((float(ft["fitness"]), inpop))
+            opt = getattr(O, kind)(f, iters=7, pop_size=pop, minimization=mini, init_population=init, random_state=seed, on_generation=cb,
+                                   mutation_rate=0.2, **({} if kind != "GeneticAlgorithm" else dict(mutation="custom_rate")), **kw)
+            opt.fit()
+            rep.traces += 1
+            rep.count("undefined-points", (kind, seed, mini))
+            vals = [t[0] for t in track] + [float(opt.get_fittest()["fitness"])]
+            bad = any(np.isnan(v) for v in vals) or any(b < a for a, b in zip(vals, vals[1:])) or not all(t[1] for t in track)
+            if bad:
+                rep.problem("best", f"{kind}: with an objective that is NaN on part of the space the best-so-far became NaN / got worse / left the population under elitism: {vals}",
+                            dict(kind=kind, random_state=seed, pop_size=pop, minimization=mini, objective="sqrt(5 - #ones) + #ones/8"), "best-regressed", True, vals, None, "C02_best_monotone")
+
+
 def run(ctx, rep):
+    undefined_points(ctx, rep)
     _loop.run_all(ctx, rep, "C02", predicate, 30, 300, force=dict(iters=5))
     parallel_slots(ctx, rep)
 
